@@ -312,6 +312,10 @@ def hulls_and_bounds(tier, seed):
                     fail("hull:not-outward-wound", sname)
                 if not hull.is_convex:
                     fail("hull:not-convex", sname)
+                # the normals the hull was built with are the unit normals of its own winding
+                fresh_n, ok_n = trimesh.triangles.normals(hull.triangles)
+                if not ok_n.all() or not rnp.allclose(hull.face_normals, fresh_n, atol=1e-6):
+                    fail("hull:face-normals-are-not-the-unit-normals-of-the-winding", sname)
                 pset = {tuple(x) for x in rnp.round(P, 12).tolist()}
                 if not all(tuple(x) in pset for x in rnp.round(hull.vertices, 12).tolist()):
                     fail("hull:vertex-is-not-an-input-point", sname)
